@@ -52,7 +52,8 @@ P["C06"] = dict(
              "T-SERIES: auxiliary-latitude series pairs are exact reversions to n^6",
              "T-MERIDIAN: MERIDIAN_ARC_COEFFICIENTS[k] = binom(1/2,k)^2",
              "R-DIMENSION: (units-of-measure inference) every addition, subtraction and comparison in the ellipsoid geometry and in the operators with documented tuple conventions joins quantities of one physical dimension, transcendental functions get dimensionless arguments, and written tuple elements have the documented dimension (length / angle / time)",
-             "R-UNIT-DIVISOR: no division by 1 - x*x with x a product of sines and cosines (|x| = 1 attained, e.g. on the equator) without a test of the divisor"],
+             "R-UNIT-DIVISOR: no division by 1 - x*x with x a product of sines and cosines (|x| = 1 attained, e.g. on the equator) without a test of the divisor",
+             "R-ITER-CAP-AGREE: the geodesic operator tests the iteration count returned by geodesic_inv against a threshold below geodesic_inv's iteration cap (non-convergence is detectable)"],
     not_decided=["cartesian/geographic accuracy", "geodesic consistency", "closed-form agreement of series",
                  "identities among derived shape parameters"],
     level="Decides the table/series clauses of ellipsoid coherence exactly; numerical clauses are not claimed.",
@@ -143,7 +144,8 @@ P["C10"] = dict(
              "R-DISPATCH-EXHAUSTIVE: every stored dispatch literal has an arm (no live default arm returning 0)",
              "R-ELEMENT-PRESERVE: for plane / 3D / single-element operators every written tuple keeps the elements "
              "the operator does not work on as copies of the same element of the tuple read",
-             "R-TUPLE-LOOP-COMPLETE: per-tuple loops visit every tuple (no break/return in the body), so no tuple is left untransformed, uncounted and looking valid"],
+             "R-TUPLE-LOOP-COMPLETE: per-tuple loops visit every tuple (no break/return in the body), so no tuple is left untransformed, uncounted and looking valid",
+             "R-ITER-CAP-AGREE: the non-convergence test of the geodesic operator can fire: threshold < iteration cap of geodesic_inv, applied to the count as returned"],
     not_decided=["NaN propagation through arithmetic", "which inputs are inside the domain"],
     level="Decides the counting/NaN discipline and untouched-axes clauses as all-paths properties of the operator "
           "loops; numerical domain questions are not decided.",
@@ -247,7 +249,8 @@ P["C03"] = dict(
              "R-DISPATCH: Op::apply/handle_inversion truth tables",
              "R-PIPE-OWN-PARAMS: the pipeline constructor does not tokenize the text of its steps as its own parameter "
              "list (step modifiers cannot become modifiers of the enclosing pipeline)",
-             "R-INV-HANDLED: every operator Op::op obtains from a constructor (user registered or built-in) passes through handle_op_inversion"],
+             "R-INV-HANDLED: every operator Op::op obtains from a constructor (user registered or built-in) passes through handle_op_inversion",
+             "R-MODIFIER-ROTATE: the tokenizer rotates leading modifiers behind the operator name in a loop that re-tests the first element (several prefix modifiers, as produced by `<`/`>` plus inv)"],
     not_decided=["</> desugaring and modifier rotation in the tokenizer", "bit-identity with stand-alone application "
                  "(follows from the shape but is not separately checked)", "omit_* leaking through globals"],
     level="Decides the interpreter's structure (order, duality, tally, modifier plumbing) on all paths; the "
@@ -288,7 +291,8 @@ P["C19"] = dict(
              "R-DIM-GUARD: in the CoordinateTuple defaults every *_nth_unchecked(k), k != 0, is dominated by k < dim()",
              "R-SIGNUM-ZERO: no conversion takes the sign of a degree-minute-second sum from an integer signum()",
              "R-DEFAULT-RMW: default CoordinateSet::set_xy/set_xyz/set_xyzt write the given values to the leading elements and every other element as read from the same index",
-             "R-SIGN-CARRIER: the ISO 6709 converters and parse_sexagesimal are of the form signum(x) * g(|x|): angles with zero whole degrees keep a negative sign"],
+             "R-SIGN-CARRIER: the ISO 6709 converters and parse_sexagesimal are of the form signum(x) * g(|x|): angles with zero whole degrees keep a negative sign",
+             "R-ANGLE-RANGE: normalize_symmetric / normalize_positive return input + 2 pi k inside the documented range (interval case analysis on the sign of the remainder)"],
     not_decided=["numeric loss / rounding of the encodings", "normalisation ranges", "arithmetic operator impls"],
     level="Decides the structural clauses of container and encoding consistency; rounding behaviour is not decided.",
     design_ref="DESIGN.md section 3, C19",
@@ -335,7 +339,8 @@ P["C16"] = dict(
     decides=["R-KEY-DECLARED: every key read by an operator (flags included) is declared in its gamut, stored by its "
              "constructor, or implicit; so a declared flag is what the operator consults ('flags are true when present')",
              "R-TYPED-EXTRACT: in ParsedParameters::new each OpParameter variant is parsed by the parser of the declared type (usize / i64 / parse_sexagesimal / none) and naturals and integers are stored unconverted",
-             "R-SIGN-CARRIER: parse_sexagesimal takes the sign of the angle from the sign bit (signum) of the degrees field whose magnitude it uses, so -0:30 keeps its sign"],
+             "R-SIGN-CARRIER: parse_sexagesimal takes the sign of the angle from the sign bit (signum) of the degrees field whose magnitude it uses, so -0:30 keeps its sign",
+             "R-MODIFIER-ROTATE: position of modifiers - every leading modifier is rotated behind the name, not only the first"],
     not_decided=["idempotence of normalize and equivalence of differently formatted texts (string rewriting on all "
                  "inputs)", "parsing of each value type", "defaults, required parameters, last-wins, unknown keys ignored"],
     level="Decides only the declaration/use agreement clause of 'parameters are typed as declared'; the tokenizer's "
